@@ -15,7 +15,9 @@
 EXTENDS Integers, Sequences, FiniteSets, TLC
 CONSTANTS Accts, Keys, MaxBal, Vals, MaxSnaps, MaxOps, HistOn,
           CodeIds,   \* contract codes that can be deployed (empty set: no contract life cycle)
-          Blocks     \* BOOLEAN: SetBlock is part of the alphabet
+          Blocks,    \* BOOLEAN: SetBlock is part of the alphabet
+          Ops,       \* the calls that are part of the alphabet (directed generators use a sub-alphabet)
+          SnapSlots  \* slots GetSnapshot may write (the others keep the snapshot of the initial, empty state)
 VARIABLES trie,      \* [Accts -> Data \cup {Absent}]   accounts stored in the account trie
           cache,     \* [Accts -> [in, d, sync, last]]  mutableAccounts / lastAccounts
           logical,   \* [Accts -> Data]                 what the user wrote
@@ -130,19 +132,19 @@ Reload(s) == /\ snaps[s].fl
              /\ Log(Rec("reload", "", "", 0, s, 0))
 
 Can == MaxOps = 0 \/ nops < MaxOps
-Next == \/ \E a \in Accts, b \in 0..MaxBal : Can /\ SetBalance(a, b)
-        \/ \E a \in Accts, k \in Keys, v \in Vals : Can /\ SetValue(a, k, v)
-        \/ \E a \in Accts, k \in Keys : Can /\ DeleteValue(a, k)
-        \/ \E a \in Accts : Can /\ InitContract(a)
-        \/ \E a \in Accts : Can /\ Touch(a)
-        \/ \E a \in Accts, b \in BOOLEAN : Can /\ SetBlock(a, b)
-        \/ \E a \in Accts, c \in CodeIds : Can /\ Deploy(a, c)
-        \/ \E a \in Accts : Can /\ CodeIds # {} /\ Accept(a)
-        \/ \E s \in 1..MaxSnaps : Can /\ GetSnapshot(s)
-        \/ \E s \in 1..MaxSnaps : Can /\ Reset(s)
-        \/ Can /\ ClearCache
-        \/ \E s \in 1..MaxSnaps : Can /\ Flush(s)
-        \/ \E s \in 1..MaxSnaps : Can /\ Reload(s)
+Next == \/ \E a \in Accts, b \in 0..MaxBal : Can /\ "setbalance" \in Ops /\ SetBalance(a, b)
+        \/ \E a \in Accts, k \in Keys, v \in Vals : Can /\ "setvalue" \in Ops /\ SetValue(a, k, v)
+        \/ \E a \in Accts, k \in Keys : Can /\ "deletevalue" \in Ops /\ DeleteValue(a, k)
+        \/ \E a \in Accts : Can /\ "initcontract" \in Ops /\ InitContract(a)
+        \/ \E a \in Accts : Can /\ "touch" \in Ops /\ Touch(a)
+        \/ \E a \in Accts, b \in BOOLEAN : Can /\ "setblock" \in Ops /\ SetBlock(a, b)
+        \/ \E a \in Accts, c \in CodeIds : Can /\ "deploy" \in Ops /\ Deploy(a, c)
+        \/ \E a \in Accts : Can /\ "accept" \in Ops /\ CodeIds # {} /\ Accept(a)
+        \/ \E s \in SnapSlots : Can /\ "snapshot" \in Ops /\ GetSnapshot(s)
+        \/ \E s \in 1..MaxSnaps : Can /\ "reset" \in Ops /\ Reset(s)
+        \/ Can /\ "clearcache" \in Ops /\ ClearCache
+        \/ \E s \in 1..MaxSnaps : Can /\ "flush" \in Ops /\ Flush(s)
+        \/ \E s \in 1..MaxSnaps : Can /\ "reload" \in Ops /\ Reload(s)
 Spec == Init /\ [][Next]_vars
 
 -----------------------------------------------------------------------------
